@@ -27,6 +27,7 @@ type recorder struct {
 	status []*types.Status
 	snap   []string
 	gate   chan struct{} // when set: OnEvent waits for it (a slow application callback)
+	stop   bool          // OnError returns false ("do not carry on"): whatever it returns, nothing may break
 }
 
 func (l *recorder) OnConnected() {
@@ -51,7 +52,7 @@ func (l *recorder) OnError(err error) bool {
 	l.mu.Lock()
 	defer l.mu.Unlock()
 	l.trace = append(l.trace, "error")
-	return true
+	return !l.stop
 }
 
 func (l *recorder) count() int {
@@ -140,7 +141,7 @@ func streamListen(c *ctx) {
 		}
 		u, d := newClient(nil, types.BroadcastAddr{})
 		d.Datagrams = dgs
-		rec := &recorder{}
+		rec := &recorder{stop: n%2 == 1}
 		if slow {
 			rec.gate = make(chan struct{})
 			go func(g chan struct{}) {
@@ -265,7 +266,8 @@ func streamDiscover(c *ctx) {
 			case "bad-bcd":
 				b[28+r.Intn(4)] = rng.Pick(r, byte(0x1a), 0xa0, 0xff)
 			case "bad-calendar":
-				b[30], b[31] = 0x02, 0x31
+				d := calendarDates[r.Intn(len(calendarDates))]
+				copy(b[28:32], []byte{bcdByte(d[0] / 100), bcdByte(d[0] % 100), bcdByte(d[1]), bcdByte(d[2])})
 			case "mutated":
 				b[8+r.Intn(24)] = r.U8()
 			}
